@@ -226,6 +226,9 @@ pub fn walk<'tcx>(tcx: TyCtxt<'tcx>) -> J {
     let mut leaves: BTreeMap<String, usize> = BTreeMap::new();
     let mut unresolved: Vec<J> = Vec::new();
     let mut n_instances = 0usize;
+    let mut transit_cache: HashMap<Instance<'tcx>, Vec<Instance<'tcx>>> = HashMap::new();
+    let mut transit_stats: (usize, usize) = (0, 0);
+    let mut via_external: BTreeSet<String> = BTreeSet::new();
 
     while let Some((inst, entry)) = queue.pop_front() {
         seen.cur = seen.ids.get(&inst).copied();
@@ -386,6 +389,21 @@ pub fn walk<'tcx>(tcx: TyCtxt<'tcx>) -> J {
                                 callee_desc = Some(format!("{}\u{1f}{}\u{1f}{}", ckey, kind, full));
                                 if seen.insert(ci) {
                                     queue.push_back((ci, entry.clone()));
+                                }
+                                // an external generic function instantiated with workspace items may call back into the workspace
+                                if !ws.contains(tcx.crate_name(ci.def_id().krate).as_str()) && mentions_ws(tcx, &ws, ci.args) {
+                                    for wi in transit(tcx, env, &ws, ci, &mut transit_cache, &mut transit_stats) {
+                                        // closures are reached from where they are created; only items are new information
+                                        if tcx.is_closure_like(wi.def_id()) {
+                                            continue;
+                                        }
+                                        let wk = def_key(tcx, wi.def_id());
+                                        via_external.insert(wk.clone());
+                                        new_refs.push(wk);
+                                        if seen.insert(wi) {
+                                            queue.push_back((wi, entry.clone()));
+                                        }
+                                    }
                                 }
                             }
                             _ => {
@@ -550,6 +568,9 @@ pub fn walk<'tcx>(tcx: TyCtxt<'tcx>) -> J {
         "inst_edges": J::A(edges),
         "entries": J::A(entries),
         "n_instances": J::I(n_instances as i128),
+        "via_external": J::A(via_external.iter().map(|k| J::S(k.clone())).collect()),
+        "transit_bodies": J::I(transit_stats.0 as i128),
+        "transit_truncated": J::I(transit_stats.1 as i128),
         "fns": J::A(fns_json),
         "callees": J::A(callees_json),
         "unresolved": J::A(unresolved),
@@ -588,6 +609,85 @@ fn visit_rvalue_operands<'tcx>(rv: &Rvalue<'tcx>, f: &mut impl FnMut(&Operand<'t
         }
         _ => {}
     }
+}
+
+/// Does a list of generic arguments mention an item of the workspace (an ADT, a closure or a fn item defined there)?
+fn mentions_ws<'tcx>(tcx: TyCtxt<'tcx>, ws: &HashSet<&str>, args: ty::GenericArgsRef<'tcx>) -> bool {
+    for a in args.iter() {
+        for t in a.walk() {
+            if let Some(ty) = t.as_type() {
+                let did = match ty.kind() {
+                    ty::Adt(def, _) => Some(def.did()),
+                    ty::Closure(did, _) | ty::FnDef(did, _) => Some(*did),
+                    _ => None,
+                };
+                if let Some(did) = did {
+                    if ws.contains(tcx.crate_name(did.krate).as_str()) {
+                        return true;
+                    }
+                }
+            }
+        }
+    }
+    false
+}
+
+/// Workspace instances that a call of the *external* generic instance `start` can call back into (`TryInto::try_into` ->
+/// `<ClassName as TryFrom<..>>::try_from`, `str::parse` -> `FromStr::from_str`, `Into::into` -> `From::from`, `sort` -> `Ord::cmp`, ...):
+/// the bodies of external instances whose generic arguments mention a workspace item are walked for calls only.
+fn transit<'tcx>(
+    tcx: TyCtxt<'tcx>,
+    env: TypingEnv<'tcx>,
+    ws: &HashSet<&str>,
+    start: Instance<'tcx>,
+    cache: &mut HashMap<Instance<'tcx>, Vec<Instance<'tcx>>>,
+    stats: &mut (usize, usize),
+) -> Vec<Instance<'tcx>> {
+    if let Some(v) = cache.get(&start) {
+        return v.clone();
+    }
+    let mut out: Vec<Instance<'tcx>> = Vec::new();
+    let mut outset: HashSet<Instance<'tcx>> = HashSet::new();
+    let mut visited: HashSet<Instance<'tcx>> = HashSet::new();
+    let mut stack = vec![start];
+    visited.insert(start);
+    while let Some(e) = stack.pop() {
+        if visited.len() > 4000 {
+            stats.1 += 1;
+            break;
+        }
+        match e.def {
+            InstanceKind::Virtual(..) | InstanceKind::Intrinsic(..) => continue,
+            InstanceKind::Item(d) => {
+                if !tcx.is_mir_available(d) {
+                    continue;
+                }
+            }
+            _ => {}
+        }
+        stats.0 += 1;
+        let body: &Body<'tcx> = tcx.instance_mir(e.def);
+        let cx = Ctx { tcx, env, inst: e };
+        for bb in body.basic_blocks.iter() {
+            if let TerminatorKind::Call { func, .. } = &bb.terminator().kind {
+                let fty = cx.subst(func.ty(&body.local_decls, tcx));
+                if let ty::FnDef(cdid, cargs) = fty.kind() {
+                    if let Ok(Some(ci)) = Instance::try_resolve(tcx, env, *cdid, cargs) {
+                        let ck = tcx.crate_name(ci.def_id().krate);
+                        if ws.contains(ck.as_str()) {
+                            if outset.insert(ci) {
+                                out.push(ci);
+                            }
+                        } else if mentions_ws(tcx, ws, ci.args) && visited.insert(ci) {
+                            stack.push(ci);
+                        }
+                    }
+                }
+            }
+        }
+    }
+    cache.insert(start, out.clone());
+    out
 }
 
 fn enqueue_fn_const<'tcx>(
